@@ -65,6 +65,34 @@ class Event:
         return "<Ev %s %s %s>" % (self.kind, self.where(), {k: v for k, v in self.d.items() if k in ("attr", "name", "callee")})
 
 
+def _conjuncts(t):
+    a = t.single_atom()
+    if a is not None and a[0] == "and":
+        out = []
+        for x in a[1]:
+            out.extend(_conjuncts(x))
+        return out
+    return [t]
+
+
+def _leaves(t, conds=()):
+    a = t.single_atom()
+    if a is not None and a[0] == "ite":
+        yield from _leaves(a[2], conds + (a[1],))
+        yield from _leaves(a[3], conds + (T.mk_not(a[1]),))
+    else:
+        yield conds, t
+
+
+def virtual(e, conds, **d):
+    """A copy of event e that is additionally guarded by `conds` (and carries the given fields instead of e's)."""
+    v = Event(e.kind, e.node, e.func, e.stack, tuple(e.pc) + tuple(PC(c_, c_, True, e.node, e.func) for c_ in conds), **dict(e.d, **d))
+    v.seq = e.seq
+    v.d["phi_conds"] = tuple(conds)
+    v.d["phi_of"] = e
+    return v
+
+
 class PC:
     """One dominating guard: effective condition term (already negated for a
     False edge), the raw test term, the polarity, the AST test node."""
@@ -114,7 +142,24 @@ class Trace:
         return [e for e in self.events if e.kind in kinds]
 
     def stores(self, attr=None):
-        return [e for e in self.events if e.kind == "store" and (attr is None or e.attr == attr)]
+        """Store events.  When an attribute is named, a store whose value is a gated phi over constants only (a state computed
+        into a local or returned by a helper and then assigned once: `self.drift_state = "drift" if c else None`) is split into
+        one virtual store per leaf, guarded by the leaf's conditions - the same events an if / elif chain of stores produces."""
+        evs = [e for e in self.events if e.kind == "store" and (attr is None or e.attr == attr)]
+        if attr is None:
+            return evs
+        out = []
+        for e in evs:
+            v = e.d.get("value")
+            a = v.single_atom() if isinstance(v, R) else None
+            if a is not None and a[0] == "ite":
+                leaves = list(_leaves(v))
+                if len(leaves) > 1 and all(T.is_pure_const(l) for _c, l in leaves):
+                    for conds, leaf in leaves:
+                        out.append(virtual(e, conds, value=leaf))
+                    continue
+            out.append(e)
+        return out
 
     def loads(self, attr=None):
         return [e for e in self.events if e.kind == "load" and (attr is None or e.attr == attr)]
@@ -259,7 +304,17 @@ class Evaluator:
         # fold: ite(c1, v1, ite(c2, v2, ... last))
         cond, mst, mval = exits[-1]
         mattrs = mst.attrs
-        for c, s, v in reversed(exits[:-1]):
+        # the i-th exit is taken when its condition holds and no earlier exit was taken: inside the else-branches of the
+        # earlier exits their negations are known, so conjuncts of later conditions that merely repeat them are dropped
+        # (`if a: return x` / `if b: return y` / `return z`  ==  ite(a, x, ite(b, y, z)), not ite(a, x, ite(not a and b, ...)))
+        known = []
+        simplified = []
+        for c, s, v in exits[:-1]:
+            cj = [x for x in _conjuncts(c) if not any(x == k for k in known)]
+            c2 = T.mk_and(cj) if len(cj) > 1 else (cj[0] if cj else T.TRUE)
+            simplified.append((c2, s, v))
+            known.extend(_conjuncts(T.mk_not(c2)))
+        for c, s, v in reversed(simplified):
             mval = T.mk_ite(c, v, mval)
             mattrs = self._merge_maps(c, s.attrs, mattrs)
         self.emit("exit", node or fi.node, callee=fi.qualname, fi=fi, value=mval)
